@@ -498,9 +498,22 @@ def discharge(ob: Obligation, st: State, timeout_ms: int, use_cvc5: bool, both: 
             # still nothing: look for a model of the quantifier-free part only (quantified assumptions and heap lambdas
             # dropped).  Such a model may violate the dropped assumptions; like every candidate it counts only when the
             # native replay, which re-checks the preconditions, reproduces the failure
-            from .interp import has_quant
             keep = st.cfg.get("_pc_requires", 0)  # the function's own preconditions always stay
-            qf = [a_ for j_, a_ in enumerate(assertions) if j_ < keep or not has_quant(a_)]
+
+            def true_quantifier(e):  # forall / exists (array lambdas are harmless for model search and stay)
+                seen_, stack_ = set(), [e]
+                while stack_:
+                    x_ = stack_.pop()
+                    if x_.get_id() in seen_:
+                        continue
+                    seen_.add(x_.get_id())
+                    if z3.is_quantifier(x_) and not x_.is_lambda():
+                        return True
+                    stack_.extend(x_.children())
+                    if z3.is_quantifier(x_):
+                        stack_.append(x_.body())
+                return False
+            qf = [a_ for j_, a_ in enumerate(assertions) if j_ < keep or not true_quantifier(a_)]
             if len(qf) < len(assertions):
                 r4, m4 = smt.check(qf, min(timeout_ms, 5000))
                 if r4 == "sat":
